@@ -130,8 +130,22 @@ def ts_occ(prog):
 
 def _stack_calls(fn, name):
     te = fn.terms
-    return [cs for cs in te.calls if cs.callee.name == name and cs.callee.key().startswith("std::vec::Vec")
-            and "state_stack" in show(cs.args[0])]
+    out = [cs for cs in te.calls if cs.callee.name == name and cs.callee.key().startswith("std::vec::Vec")
+           and "state_stack" in show(cs.args[0])]
+    if name == "pop":
+        # `v.truncate(v.len() - 1)` / `v.truncate(v.len().saturating_sub(1))` drops exactly the last element too
+        for cs in te.calls:
+            if cs.callee.name == "truncate" and cs.callee.key().startswith("std::vec::Vec") and "state_stack" in show(cs.args[0]) \
+                    and len(cs.args) == 2:
+                n = strip(cs.args[1])
+                if n[0] == "field" and n[2] == "0":
+                    n = strip(n[1])
+                one = lambda x: strip(x)[0] == "const" and str(strip(x)[2]) == "1"
+                is_len = lambda x: mir.is_call(strip(x), "len") and "state_stack" in show(x)
+                if (mir.is_call(n, "saturating_sub") and is_len(n[2][0]) and one(n[2][1])) or \
+                        (n[0] == "bin" and n[1].startswith("Sub") and is_len(n[2]) and one(n[3])):
+                    out.append(cs)
+    return out
 
 
 def ts_stk(prog):
@@ -201,7 +215,7 @@ def ts_stk(prog):
     pp = _stack_calls(popf, "pop")
     errs = []
     if len(pp) != 1 or not all(popf.cfg.dominates(pp[0].bb, r) for r in popf.cfg.returns):
-        errs.append("pop must pop exactly one state on every path (found %d pop sites)" % len(pp))
+        errs.append("%spop must pop exactly one state on every path (found %d pop sites)" % ("?" if not pp else "", len(pp)))
     if _stack_calls(popf, "push"):
         errs.append("pop pushes")
     out.append(inst("TS-STK", "%s:pop-one" % popf.npath, VIOLATION if errs else OK, popf, None,
